@@ -30,7 +30,7 @@ TabUp    == TLCEval([v \in 1..(TabLatest - 1) |-> [F \in SUBSET TabFeat |-> SeqS
 TabUpOut == TLCEval([v \in 1..(TabLatest - 1) |-> [F \in SUBSET TabFeat |-> Tab.upx[v][MaskOf(F) + 1]]])
 
 \* shape of the file (a malformed file is a machinery failure, not a verdict)
-ASSUME /\ TabNF \in 1..12 /\ TabLatest \in 1..8
+ASSUME /\ TabNF \in 1..16 /\ TabLatest \in 1..8
        /\ Len(Tab.added) = TabNF /\ Len(Tab.depr) = TabNF
        /\ \A f \in TabFeat : TabAdded[f] \in 1..TabLatest /\ TabDepr[f] \in 0..(TabLatest + 1)
        /\ Len(Tab.up) = TabLatest - 1 /\ Len(Tab.upx) = TabLatest - 1
